@@ -111,6 +111,7 @@ def check(chk):
     # batched saves / updates / deletes: the statement is renumbered before it is merged into the batch
     from .c37 import renumber_loops
     renumber_loops(chk, 'C35.renumber')
+    chk.borrow('C37', {'C37.lists': 'C35.renumber'}, 'in a batch the placeholders of that list keep ids that collide with other clauses or statements')
 
 
 def _snapshot_rule(chk, cols):
